@@ -913,7 +913,40 @@ def r_dir(d):
                             "fresh": repr(g0[:160]), "after": repr(g3[:160])}
                 if os.path.exists(cachefile):
                     os.unlink(cachefile)
-        if "savecache" in name or "getdirlist" in name:
+            os.makedirs(os.path.join(top, "sub3"), exist_ok=True)
+            open(os.path.join(top, "sub3", "inner.txt"), "w").write("i")
+            sub_cache = os.path.join(top, "sub3", os.path.basename(cachefile))
+            s0, _l = _serve(b"/sub3\r\n", cfg)
+            for other in (b"/sub3//\r\n", b"/sub3/.\r\n", b"/sub3///\r\n", b"GET /sub3// HTTP/1.0\r\n\r\n", b"/sub3/\r\n"):
+                if os.path.exists(sub_cache):
+                    os.unlink(sub_cache)
+                _serve(other, cfg)
+                s3, _l = _serve(b"/sub3\r\n", cfg)
+                if s3 != s0:
+                    return {"confirmed": True, "scenario": "after the request %r the listing of /sub3 (served within the cache lifetime) is no longer the directory's listing" % other,
+                            "fresh": repr(s0[:160]), "after": repr(s3[:160])}
+            import shutil as _sh3
+            _sh3.rmtree(os.path.join(top, "sub3"), ignore_errors=True)
+            if os.path.exists(cachefile):
+                os.unlink(cachefile)
+        if "savecache" in name or "getdirlist" in name or "standin" in d.get("kind", ""):
+            # a hit serves exactly the cached listing (also when the directory changed meanwhile) and leaves the cache file alone
+            if os.path.exists(cachefile):
+                os.unlink(cachefile)
+            for cls in (DirHandler, UMNDirHandler):
+                h = mk(cls); h.prepare(); first = [e.selector for e in h.getdirlist()]
+                past = time.time() - 60
+                os.utime(cachefile, (past, past))
+                m1 = os.stat(cachefile).st_mtime_ns
+                os.rename(os.path.join(top, "b.txt"), os.path.join(top, "b.moved"))
+                try:
+                    h = mk(cls); h.prepare(); second = [e.selector for e in h.getdirlist()]
+                finally:
+                    os.rename(os.path.join(top, "b.moved"), os.path.join(top, "b.txt"))
+                if second != first or os.stat(cachefile).st_mtime_ns != m1:
+                    return {"confirmed": True, "scenario": "a listed file disappeared while the cache entry was fresh: the hit must serve the cached listing and must not rewrite the cache", "handler": cls.__name__,
+                            "cached": first, "served": second, "cache rewritten": os.stat(cachefile).st_mtime_ns != m1}
+                os.unlink(cachefile)
             h = mk(); h.prepare(); h.getdirlist()
             m0 = os.stat(cachefile).st_mtime_ns
             past = time.time() - 60
@@ -950,6 +983,37 @@ def r_dir(d):
                 os.listdir = real_listdir
                 for f in ("README", "ReadMe", "readme", "Zebra", "apple", ".linksA", ".linksB", ".linksC"):
                     os.unlink(os.path.join(top, f))
+            # C07: a .cap entry that cannot be read hides nothing; dot-directories stay retrievable by exact selector
+            os.makedirs(os.path.join(top, ".cap", "a.txt"), exist_ok=True)      # .cap/a.txt is a directory: unreadable as a cap file
+            os.makedirs(os.path.join(top, ".archive", "2019"), exist_ok=True)
+            open(os.path.join(top, ".archive", "2019", "old.txt"), "w").write("o")
+            try:
+                hb.rootpath = None; hm.rootpath = None; hm.handlers = None
+                out, _l = _serve(b"/\r\n", cfg)
+                if b"\t/a.txt\t" not in out:
+                    return {"confirmed": True, "scenario": "a.txt has an unreadable .cap/a.txt (a directory): it must still be listed", "listing": repr(out[:300])}
+                for sel_ in (b"/.archive", b"/.archive/2019", b"/.cap"):
+                    out, _l = _serve(sel_ + b"\r\n", cfg)
+                    if out.startswith(b"3") or not out:
+                        return {"confirmed": True, "scenario": "the dot-directory %r is kept out of listings but must be retrievable by exact selector" % sel_, "response": repr(out[:200])}
+            finally:
+                import shutil as _sh4
+                _sh4.rmtree(os.path.join(top, ".cap"), ignore_errors=True)
+                _sh4.rmtree(os.path.join(top, ".archive"), ignore_errors=True)
+            # C08: a directory holding nothing but link files lists its link entries; the order of lines inside a block does not matter
+            os.makedirs(os.path.join(top, "services"), exist_ok=True)
+            open(os.path.join(top, "services", ".Links"), "w").write("Name=Finger information\nType=0\nPath=lindner\nHost=mudhoney.example\nPort=79\n\n"
+                                                                     "Name=Same, host first\nType=0\nHost=mudhoney.example\nPort=79\nPath=lindner\n")
+            open(os.path.join(top, "services", "draft.txt~"), "w").write("ignored")
+            try:
+                hb.rootpath = None; hm.rootpath = None; hm.handlers = None
+                out, _l = _serve(b"/services\r\n", cfg)
+                ll = [l.split(b"\t") for l in out.split(b"\r\n") if l and l != b"."]
+                if len(ll) != 2 or any(l[1:4] != [b"lindner", b"mudhoney.example", b"79"] for l in ll):
+                    return {"confirmed": True, "scenario": "a directory with only a .Links file (two blocks to another host, Path= before and after Host=)", "listing": repr(out[:300])}
+            finally:
+                import shutil as _sh5
+                _sh5.rmtree(os.path.join(top, "services"), ignore_errors=True)
             # C07: exactly the entries that are neither dot-files nor matched by the configured ignore pattern, at the root
             # and below it (the pattern is matched against <directory selector>/<name>)
             import re as _re2
@@ -987,6 +1051,8 @@ def r_dir(d):
             os.symlink("loop%s", os.path.join(top, "loop%s"))          # ELOOP, '%' in the name
             os.symlink("a.txt/below", os.path.join(top, "100%_mirror"))  # ENOTDIR
             os.symlink("/nonexistent/b", os.path.join(top, "b.link"))    # dangling, sorts between a.txt and b.txt
+            os.symlink(".loopdot", os.path.join(top, ".loopdot"))        # ELOOP on a dot-named entry
+            os.symlink("a.txt/below", os.path.join(top, ".names"))       # ENOTDIR on a would-be link file
             for cls in (DirHandler, UMNDirHandler):
                 h = mk(cls)
                 try:
@@ -996,6 +1062,27 @@ def r_dir(d):
                     return {"confirmed": True, "scenario": "directory with a dangling link, a fifo and a name containing '..'", "handler": cls.__name__, "raised": repr(e)}
                 if not {"/a.txt", "/b.txt", "/c.txt"} <= set(names):
                     return {"confirmed": True, "scenario": "servable entries missing", "listing": names}
+            # an entry that vanishes / becomes unreadable after the directory was enumerated (stat failing with ENOENT / EACCES)
+            import errno as _e2
+            real_stat = hb.VFS_Real.stat
+            for err in (_e2.ENOENT, _e2.EACCES):
+                for cls in (DirHandler, UMNDirHandler):
+                    def failing_stat(self_, selector, real=real_stat, err=err):
+                        if selector == "/b.txt":
+                            raise OSError(err, os.strerror(err), selector)
+                        return real(self_, selector)
+                    hb.VFS_Real.stat = failing_stat
+                    try:
+                        h = mk(cls)
+                        try:
+                            h.prepare()
+                            names = sorted(e.selector for e in h.fileentries)
+                        except Exception as e:  # noqa
+                            return {"confirmed": True, "scenario": "stat of one child failing with %s after the directory was enumerated" % _e2.errorcode[err], "handler": cls.__name__, "raised": repr(e)}
+                    finally:
+                        hb.VFS_Real.stat = real_stat
+                    if not {"/a.txt", "/c.txt"} <= set(names):
+                        return {"confirmed": True, "scenario": "servable entries missing when one child's stat fails", "listing": names}
         return {"confirmed": None, "note": "scenarios passed"}
     finally:
         shutil.rmtree(top, ignore_errors=True)
@@ -1139,7 +1226,7 @@ def r_gophermap(d):
         cfg = _config({})
         cfg.set("pygopherd", "root", top)
         firsts = ["0About", "1Sub dir", "hHome page", "iinfo with tab", "0", "9 spaced  name ", "IImage", "TTelnet 3270", "URL list", "0Caf\udce9 latin-1", "0Na\u00efve utf-8"]
-        sels = [None, "", "rel.txt", "/abs/file.txt", "URL:http://example.org/", "sub/deeper.txt", " padded ", "URLs/list.txt", "URL", "/pub//archive", "proxy?u=http://example.org//x", "caf\udce9.txt", "r\udce9sum\udce9s/na\u00efve.txt"]
+        sels = [None, "", "rel.txt", "/abs/file.txt", "URL:http://example.org/", "sub/deeper.txt", " padded ", "URLs/list.txt", "URL", "/pub//archive", "proxy?u=http://example.org//x", "caf\udce9.txt", "r\udce9sum\udce9s/na\u00efve.txt", "docs/", "docs"]
         hosts = [None, "", "gopher.example.org"]
         ports = [None, "", "70", " 7070 "]
         links = []
@@ -1161,6 +1248,7 @@ def r_gophermap(d):
             dirp = top + base
             os.makedirs(dirp, exist_ok=True)
             open(os.path.join(dirp, "rel.txt"), "w").write("local file")
+            os.makedirs(os.path.join(dirp, "docs"), exist_ok=True)
             for eol, last_nl in (("\n", True), ("\r\n", True), ("\n", False)):
                 for k in range(0, len(links), 7):
                     chunk = links[k:k + 7]
@@ -1193,6 +1281,14 @@ def r_gophermap(d):
                     nl = [x for x in out.split(b"\r\n") if x and x != b"."]
                     if len(nl) != len(want):
                         return {"confirmed": True, "scenario": "gopher listing of %s has %d lines for a gophermap of %d lines" % (base or "/", len(nl), len(want))}
+        # a directory whose own name ends in .gophermap is a directory holding a gophermap, not a map file
+        dn = os.path.join(top, "menus.gophermap")
+        os.makedirs(dn, exist_ok=True)
+        open(os.path.join(dn, "gophermap"), "w").write("Inside a directory called menus.gophermap\n0A file\tfile.txt\n")
+        out, _l = _serve(b"/menus.gophermap\r\n", cfg)
+        nl = [x for x in out.split(b"\r\n") if x and x != b"."]
+        if len(nl) != 2 or nl[0][:1] != b"i" or b"/menus.gophermap/file.txt" not in nl[1]:
+            return {"confirmed": True, "scenario": "a directory named menus.gophermap holding a two-line gophermap", "response": repr(out[:300])}
         return {"confirmed": None, "note": "%d generated gophermaps agree with the reference reading" % nscen}
     finally:
         shutil.rmtree(top, ignore_errors=True)
@@ -1305,7 +1401,7 @@ def r_zip(d):
         sels = ["", "/", "/a.txt", "/dir", "/dir/", "/dir/b.txt", "/dir/sub", "/dir/sub/c.txt", "/.hidden", "/gm", "/gm/doc.txt", "/missing", "/dir/missing",
                 "/a.txt/below", "/empty", "/page.html", "/naïve.txt", "/café", "/café/mü.txt", "/deep", "/deep/er/still/x.bin", "/ln_rel", "/dir/ln_up",
                 "/ln_abs", "/ln_dangling", "/ln_a", "/ln_dir", "/ln_dir/b.txt", "/dir/sub/ln_upup", "/dir/.Links", "/gm/gophermap", "/dir/b.txt.abstract",
-                "/dir/ln_clamp", "/dir/sub/ln_clamp2"]
+                "/dir/ln_clamp", "/dir/sub/ln_clamp2", "/A.TXT", "/Dir", "/DIR/b.txt", "/dir/B.TXT", "/Gm/doc.txt"]
         enc = lambda s: s.encode("utf-8", "surrogateescape")
         reqs = [("gopher", lambda s: enc(s) + b"\r\n"), ("gopher+ $", lambda s: enc(s) + b"\t$\r\n"), ("gopher+ !", lambda s: enc(s) + b"\t!\r\n"),
                 ("http", lambda s: b"GET " + enc(s or "/") + b" HTTP/1.0\r\n\r\n")]
@@ -1318,6 +1414,24 @@ def r_zip(d):
                 if norm(a) != norm(b):
                     return {"confirmed": True, "scenario": "selector %r (%s): the archive and the extracted tree answer differently" % (s, pname),
                             "extracted": repr(norm(a)[:300]), "archive": repr(norm(b)[:300])}
+        # archives without any file member: empty, and directory members only
+        os.makedirs(os.path.join(top, "E"))
+        os.makedirs(os.path.join(top, "D", "a", "b"))
+        os.makedirs(os.path.join(top, "D", "c"))
+        with zipfile.ZipFile(os.path.join(top, "E.zip"), "w"):
+            pass
+        with zipfile.ZipFile(os.path.join(top, "D.zip"), "w") as z:
+            for dn in ("a/", "a/b/", "c/"):
+                z.writestr(dn, b"")
+        for base_ in ("E", "D"):
+            for s in ("", "/a", "/a/b", "/c", "/missing"):
+                for pname, mk in reqs[:2]:
+                    a, la = serve(mk("/" + base_ + s))
+                    b, lb = serve(mk("/" + base_ + ".zip" + s))
+                    na = norm(a).replace(b"/" + base_.encode() + b".zip", b"/" + base_.encode()).replace(b"1" + base_.encode() + b".zip\t", b"1" + base_.encode() + b"\t")
+                    nb = norm(b).replace(b"/" + base_.encode() + b".zip", b"/" + base_.encode()).replace(b"1" + base_.encode() + b".zip\t", b"1" + base_.encode() + b"\t")
+                    if na != nb or b.startswith(b"RAISED"):
+                        return {"confirmed": True, "scenario": "archive %s.zip (no file members), selector %r (%s): differs from the directory tree" % (base_, s, pname), "extracted": repr(na[:200]), "archive": repr(nb[:200])}
         for s in escaping:
             for pname, mk in reqs:
                 b, _l = serve(mk("/T.zip/" + s))
@@ -1391,6 +1505,13 @@ def r_tal(d):
     what = d.get("function", "") + " " + d.get("obligation", "")
     EVIL = '&amp;&#65;<script>alert(1)</script>&" onmouseover="alert(2)\'x'
 
+    class _Info:
+        size = 42
+
+    class _Rec:
+        def info(self):
+            return _Info()
+
     class Canary:
         hits = 0
 
@@ -1438,6 +1559,7 @@ def r_tal(d):
                 templates.append('<html><body><p id="static" %s>body %s</p><hr><div tal:define="z num">after <b tal:content="z">z</b></div></body></html>' % (atts, inner))
     templates.append('<html><body><p tal:define="title string:Listing" tal:repeat="it emptyit">a</p><p tal:define="t2 evil" tal:repeat="it emptygen">b</p>'
                      '<p tal:define="t3 num" tal:repeat="it gen" tal:content="it">c</p></body></html>')
+    templates.append('<html><body><p tal:content="python: (count := len(items))">n</p><p tal:condition="python: [leak for leak in items]">y</p></body></html>')
     templates.append('<html><body><p tal:content="python: canary()">x</p><p tal:condition="python: canary()">y</p><p tal:attributes="a python: canary()">z</p></body></html>')
     templates.append('<html><div metal:define-macro="m"><p>macro <span metal:define-slot="s">default</span></p></div><div metal:use-macro="container/macros/m"><b metal:fill-slot="s" tal:content="evil">x</b></div></html>')
     n = 0
@@ -1522,6 +1644,12 @@ def r_tal(d):
            ('<p tal:define="a string:one"><b tal:define="a string:two" tal:content="a">x</b><i tal:content="a">y</i></p>', {}, ["<b>two</b>", "<i>one</i>"],
             "a local define ends with its element"),
            ('<p tal:condition="nothing">gone</p><p tal:condition="not:nothing" tal:replace="string:kept">x</p>', {}, ["kept"], "condition / replace"),
+           ('<p tal:condition="exists: rec/info/size">has size</p><b tal:content="nocall: rec/info/size">s</b><i tal:content="rec/info/size">t</i>', {"rec": _Rec()}, ["has size", "<b>42</b>", "<i>42</i>"],
+            "exists: / nocall: leave only the FINAL path element uncalled; callables in the middle of a path are called"),
+           ('<ul><li tal:repeat="it rows2" tal:content="it/label | default">(untitled)</li></ul>', {"rows2": [{"label": "first"}, {}, {"label": "third"}]},
+            ["<li>first</li><li>(untitled)</li><li>third</li>"], "default in a repeated element keeps the template text on that pass, whatever the previous pass produced"),
+           ('<span tal:repeat="it rows2" tal:replace="it/label | nothing">x</span>|<em tal:repeat="it rows2" tal:content="it/label | default">d</em>', {"rows2": [{}, {"label": "b"}, {}]},
+            ["b|<em>d</em><em>b</em><em>d</em>"], "nothing / default across repeat passes"),
            ('<a href="old" tal:attributes="href string:new; title default" title="t" tal:omit-tag="nothing">L</a>', {}, ['href="new"', 'title="t"', "</a>"], "attributes / default / omit-tag")]
     for tsrc, extra, needles, why in SEM:
         ctx = simpleTALES.Context()
@@ -1577,7 +1705,8 @@ def r_tal(d):
         _hb.rootpath = None; _hm.rootpath = None; _hm.handlers = None
     # ---- TAL-free documents: equivalent output, fixed point
     for docsrc in ('<html><head><title>T &amp; U</title></head><body class="x y"><p>a <b>b</b> &lt;c&gt;</p><br><img src="i.png" alt="q&quot;q"><ul><li>1<li>2</ul></body></html>',
-                   '<div><p>unclosed<p>again</div><input type="text" value="a&amp;b">'):
+                   '<div><p>unclosed<p>again</div><input type="text" value="a&amp;b">',
+                   '<p>static &#60;b&#62;not bold&#60;/b&#62; &#x3c;img src=x&#x3e; &#38;amp; &lt;i&gt; done</p>'):
         o1 = _io.StringIO(); simpleTAL.compileHTMLTemplate(docsrc).expand(simpleTALES.Context(), o1)
         o2 = _io.StringIO(); simpleTAL.compileHTMLTemplate(o1.getvalue()).expand(simpleTALES.Context(), o2)
         if skeleton(o1.getvalue()) != skeleton(docsrc) or o1.getvalue() != o2.getvalue():
@@ -1758,6 +1887,16 @@ def r_mail(d):
         out, _l = _serve(b"GET /box.mbox HTTP/1.0\r\n\r\n", cfg)
         if b"<script" in out.lower():
             return {"confirmed": True, "scenario": "a mail subject became markup in the HTML listing"}
+        # a message number of any length is answered (int() refuses digit strings beyond a few thousand digits)
+        out, logs = _serve(b"/box.mbox|/MBOX-MESSAGE/" + b"9" * 5000 + b"\r\n", cfg)
+        if not out.startswith(b"3"):
+            return {"confirmed": True, "scenario": "a message number of 5000 digits is not answered with a not-found line", "response": repr(out[:120]), "log": logs[-1:]}
+        # a message without any header line (an empty header section) is still a message of its folder
+        with open(os.path.join(top, "bare.mbox"), "w", newline="") as fh:
+            fh.write("From alice@example.org Mon Jan  1 00:00:00 2024\n\nbody without headers\n\nFrom bob@example.org Mon Jan  1 00:00:01 2024\nSubject: second\n\nbody\n\n")
+        out, logs = _serve(b"/bare.mbox\r\n", cfg)
+        if len([l for l in out.split(b"\r\n") if l and l != b"."]) != 2:
+            return {"confirmed": True, "scenario": "a mailbox whose first message has no header lines: the folder listing must have two lines", "response": repr(out[:200]), "log": logs[-1:]}
         # every message selector is answered: the listed ones with the message, numbers beyond the end with not-found
         for num, expect_found in ((1, True), (len(subjects), True), (len(subjects) + 1, False), (99, False), (0, False)):
             out, logs = _serve(b"/box.mbox|/MBOX-MESSAGE/%d\r\n" % num, cfg)
@@ -2061,3 +2200,7 @@ def r_titles(d):
 
 
 REALISERS.append(("pygopherd/handlers/html.py::", r_titles))
+
+
+for _m in ("isdir", "isfile", "exists", "stat", "listdir"):
+    REALISERS.append(("pygopherd/handlers/base.py::VFS_Real." + _m, _first_confirmed(lambda d: r_dir(dict(d, obligation=d.get("obligation", "") + " prep_entries prepare")), r_c01_audit)))
